@@ -14,6 +14,7 @@ import (
 	"sort"
 	"strings"
 	"sync"
+	"syscall"
 	"time"
 )
 
@@ -162,7 +163,11 @@ type CmdResult struct {
 	Stderr   string
 	TimedOut bool
 	Dur      time.Duration
+	Signal   string // name of the signal that ended the process, if one did
 }
+
+// wireCPUCapSeconds: CPU time one wire process may use.
+const wireCPUCapSeconds = 240
 
 // Crashed reports whether the process died from a Go panic / fatal error.
 func (r *CmdResult) Crashed() bool {
@@ -196,6 +201,9 @@ func (e *Env) Run(dir string, env []string, timeout time.Duration, name string, 
 	if err != nil {
 		if ee, ok := err.(*exec.ExitError); ok {
 			res.Exit = ee.ExitCode()
+			if ws, ok := ee.Sys().(syscall.WaitStatus); ok && ws.Signaled() {
+				res.Signal = ws.Signal().String()
+			}
 		} else {
 			res.Exit = -3
 			res.Stderr += "\nexec error: " + err.Error()
@@ -221,7 +229,18 @@ func (e *Env) Wire(dir string, extraEnv []string, args ...string) *CmdResult {
 		extraEnv = append(append([]string(nil), extraEnv...), "VERIF_STEP_CAP=20000")
 	}
 	env := e.GoEnv(extraEnv...)
-	return e.Run(dir, env, 180*time.Second, e.WireBin, args...)
+	// ... and a cap on the CPU time of the wire process itself (its virtual time, independent of
+	// machine load; explored inputs take well under a tenth of it) does the same for loops no
+	// hook sits in. The wall-clock watchdog stays a separate, inconclusive matter.
+	sh := fmt.Sprintf("ulimit -t %d; exec \"$0\" \"$@\"", wireCPUCapSeconds)
+	res := e.Run(dir, env, 600*time.Second, "/bin/sh", append([]string{"-c", sh, e.WireBin}, args...)...)
+	if res.Signal == "killed" || res.Signal == "CPU time limit exceeded" || res.Exit == 128+int(syscall.SIGXCPU) || res.Exit == 128+int(syscall.SIGKILL) {
+		if !res.TimedOut {
+			res.Stderr += fmt.Sprintf("\nVERIF-STEP-CAP site=cpu-seconds n=0 steps=%d (the wire process used its whole CPU-time budget without terminating)\n", wireCPUCapSeconds)
+			res.Exit = 96
+		}
+	}
+	return res
 }
 
 // ---------------------------------------------------------------------------
